@@ -33,3 +33,9 @@ package sqlc
 //@   requires fn != nil
 //@   ensures calls(fn) == old(calls(fn)) + 1 && result == ret(fn) && !panicked(fn)
 //@   ensures_panic calls(fn) == old(calls(fn)) + 1 && panicked(fn)
+
+// TransactCtx hands the caller's own function to the transaction layer (no wrapper that could swallow a panic or replace
+// the result), with the caller's context
+//@ func (cc CachedConn) TransactCtx
+//@   property C14
+//@   call TransactCtx#0: assert arg_ctx == ctx && arg_fn == fn
